@@ -32,6 +32,7 @@ namespace verif {
         SEM_SUB = 51,          // obj=semaphore a=n b=success
         SEM_RESUME = 52,       // obj=semaphore a=demand of the woken waiter b=thread
         SEM_PASS = 53,         // obj=semaphore a=count the resume pass may hand out
+        GUARD = 60,            // obj=primitive a=1 iff the spinlock that protects the region entered here is held, b=site id
     };
 }
 }
